@@ -85,7 +85,7 @@ def vdrive(args, timeout=1800, env=None, watchdog=None):
     if rc == 3 and os.path.exists(prog):
         info = json.load(open(prog))
         os.remove(prog)
-        if info.get("stuck_for", 0) >= int(os.environ.get("VERIF_STUCK_OVERRIDE") or STUCK_SECS):
+        if info.get("memory_runaway", 0) > 0 or info.get("stuck_for", 0) >= int(os.environ.get("VERIF_STUCK_OVERRIDE") or STUCK_SECS):
             raise HangError(info)
         raise ToolError("driver watchdog fired after %ss without a stuck case (slow run): %s" % (info.get("watchdog_secs"), info))
     if rc != 0:
@@ -371,8 +371,10 @@ class Check:
 
     def hang(self, module, h):
         """The code under test did not return on one case: a violation of every totality/termination clause."""
-        self.mismatches.append({"t": "mismatch", "kind": "violation", "sig": "%s/hang" % self.pid,
-                                "detail": "the code under test did not return for %ss on: %s" % (h.info.get("stuck_for"), str(h.info.get("current"))[:400]),
+        runaway = h.info.get("memory_runaway", 0)
+        self.mismatches.append({"t": "mismatch", "kind": "violation", "sig": "%s/%s" % (self.pid, "memory_runaway" if runaway else "hang"),
+                                "detail": ("the code under test held %d bytes of live heap on: %s" % (runaway, str(h.info.get("current"))[:400])) if runaway else
+                                          "the code under test did not return for %ss on: %s" % (h.info.get("stuck_for"), str(h.info.get("current"))[:400]),
                                 "case": h.info, "how": {"module": module}})
         log("  [%s] HANG: one case in flight for %ss" % (module, h.info.get("stuck_for")))
         return 0
